@@ -1,5 +1,6 @@
 import UralModel.Model.UrlParts
 import UralModel.Model.Quote
+import UralModel.Model.QuoteAuth
 import UralModel.Py.UrlAccessors
 import UralModel.Gen.QuoteTables
 /-!
@@ -20,8 +21,10 @@ ending with white space keeps the slash after it).
 namespace Ural.Canonicalize
 open Ural.Py Ural.UrlParts Ural.Quote
 
-/-- the four `safely_unquote_*` partials with their regenerated unsafe sets -/
-def unquoteAuthItem : Str → Str := safelyUnquote Gen.Quote.unsafeForAuthItem
+/-- the four `safely_unquote_*` functions with their regenerated unsafe sets: three partials of
+`unquote`, and for a user name / password the partial followed by the re-quoting of the NFKC
+look-alikes of a delimiter (`Model/QuoteAuth.lean`, FX-C01-NFKCUSERINFO) -/
+def unquoteAuthItem : Str → Str := safelyUnquoteAuthItem
 def unquotePath : Str → Str := safelyUnquote Gen.Quote.unsafeForPath
 def unquoteQueryItem : Str → Str := safelyUnquote Gen.Quote.unsafeForQueryItem
 def unquoteFragment : Str → Str := safelyUnquote Gen.Quote.unsafeForFragment
